@@ -24,11 +24,11 @@ CLAIMED = {
    note=ENGINE_NOTE),
  "C07": dict(engine="engine", cat="model_checking", ref="6.C07",
    technique="TLC: Engine.tla deadlock freedom + <>Done under weak fairness incl. failing Thread.start; deterministic-scheduler deadlock detector and quiescence check on real executions; cyclic plans enumerated",
-   text="Termination and clean-up (every thread exited, nothing running) are checked as liveness/invariants of Engine.tla with environment faults, and on real executions by a scheduler that detects 'no runnable thread' immediately and drives the process to quiescence after run returned; cyclic plans must raise before any call or store event.",
+   text="Termination and clean-up (every thread exited, nothing running) are checked as liveness/invariants of Engine.tla with environment faults, and on real executions by a scheduler that detects 'no runnable thread' immediately and drives the process to quiescence after run returned; cyclic plans (seeded random ones and every back edge on every 3-node multigraph shape, with and without registry) must raise before any call or store event; no observer thread may survive a run that failed to start.",
    note=ENGINE_NOTE + " Liveness on the implementation is bounded by a step budget."),
  "C10": dict(engine="engine", cat="model_checking", ref="6.C10",
    technique="TLC: RunAbs.tla (retry, max_errors, late-start budget) and Engine.tla WorkersBound/FailBound; trace validation of real executions; rendezvous plans for achievable parallelism",
-   text="Bounds on in-flight calls, failures (k+W; exact when serial), attempts per call and retry semantics are invariants of RunAbs (model-checked with Attempts up to 3) that real executions are monitored against; the ability to reach W-fold parallelism is checked with rendezvous plans whose deadlock the scheduler detects.",
+   text="Bounds on in-flight calls, failures (k+W; exact when serial), attempts per call and retry semantics are invariants of RunAbs (model-checked with Attempts up to 3) that real executions are monitored against; the ability to reach W-fold parallelism is checked with rendezvous plans whose deadlock the scheduler detects (worker counts up to 40-64, beyond the default pool cap); on the registry path store reads / writes / modified-time queries are made flaky and lingering and the harness accounts what is in flight against max_workers / stale_check_max_workers, attempts against retry, eventual success and the identity of the reported exception.",
    note=ENGINE_NOTE),
  "C17": dict(engine="engine", cat="model_checking", ref="6.C17",
    technique="TLC: Engine.tla with KeyboardInterrupt at every coordinator label while starting workers / in queue.join(); scheduler-injected KeyboardInterrupt in real executions validated against RunAbs (late-start budget, KbInt guards)",
@@ -51,14 +51,14 @@ CLAIMED.update({
  "C08": dict(engine="caching", cat="model_checking", ref="6.C08",
    technique="TLC: LooksFreshImpliesCorrect and CompletedWritesKept as state invariants of Caching.tla in every state incl. mid-run and after Abort; real runs cut at every operation index (before/after effect, exception / process death) validated by CachingTrace.tla",
    text="The C08 invariant is required in every state of Caching.tla - in the middle of runs and after a cut at any point - and is evaluated by TLC in every recorded state of real histories in which runs are cut at the k-th call start, read, write (before and after taking effect) or modified-time query, as an exception and as 'dead after the cut'; the follow-up run is validated as in C03.",
-   note=CACHING_NOTE + " Process death at file-operation granularity for file-backed stores is covered under C11."),
+   note=CACHING_NOTE + " File-backed part: a plan over the bundled file stores is run in a forked child that os._exit()s at the k-th file operation, for every k, from empty and from populated stores; the follow-up run must give from-scratch output and file contents (direct oracle, not a TLA+ trace)."),
  "C09": dict(engine="caching", cat="model_checking", ref="6.C09",
    technique="TLC: PlanOrderSufficient (the physical plan's order implies the directly stated write->read->use clauses) and DownstreamRebuilt; real runs with normalising stores validated by CachingTrace.tla (consumers receive read() values, ordering clauses per event)",
    text="The write -> read back -> use ordering is stated directly as guard clauses and shown by TLC to follow from the physical plan; on the real library, stores whose read returns a distinguishable wrapper make 'the consumer got the in-memory value' visible in the term every call returns, and the recorded event order is checked clause by clause.",
    note=CACHING_NOTE),
  "C13": dict(engine="caching", cat="model_checking", ref="6.C13",
-   technique="Frame condition of Caching.tla (a run changes only stores) checked on real histories: structural digests of the caller's Plan/Registry before and after every run, dry run and render are events of the validated traces; concurrent runs and copy independence driven separately",
-   text="Every history step executed for the caching family (success, failure in stale check or run, cut, dry run, render with level/registry) records an identity-preserving structural digest of the caller's Plan and Registry before and after; the monitor clause c13_plan_and_registry_unchanged must hold for each. Concurrent runs of one plan and Plan.copy / Registry.copy independence are exercised by a dedicated driver.",
+   technique="Frame condition of Caching.tla checked on real histories (structural digests of the caller's Plan/Registry before/after every run, dry run, render as events of the validated traces); PlanApi.tla behaviours generated by TLC replayed step by step into the real construction API; concurrent runs under the deterministic scheduler",
+   text="Every history step executed for the caching family (success, failure in stale check or run, cut, dry run, render with level/registry) records an identity-preserving structural digest of the caller's Plan and Registry before and after; the monitor clause c13_plan_and_registry_unchanged must hold for each. Additionally: several threads run one plan concurrently under the deterministic scheduler (values and plan unchanged), Plan.copy / Registry.copy independence under random mutation sequences, a Registry shared by two plans, scope-lock independence of copies, and a specification-to-implementation replay: TLC-generated behaviours of PlanApi.tla (the construction API as a state machine with the frame condition 'an action on one plan/registry leaves all others unchanged') are performed step by step on real Plan / Registry objects and the projected state compared after every step.",
    note=CACHING_NOTE + " The digest covers node identities, scopes, fn/value identities, stack frames, the edge multiset with keys, graph/node attribute dicts and registry entries."),
  "C14": dict(engine="caching", cat="translation_validation", ref="6.C14",
    technique="Translation validation: the physical plan returned by dry_run=True is projected to its executable operations and ancestor sets and compared by TLC with PlanOps/ExecAnc of Caching.tla; executing the returned plan alone is validated as a legal run from the same store state",
@@ -76,7 +76,7 @@ CLAIMED.update({
    note=FS_NOTE),
  "C12": dict(engine="filestore", cat="exploration", ref="6.C12",
    technique="Register view of FileStore.tla (read returns the last complete write; modified time None iff absent, monotone) validated by TLC on recorded write/mtime/read/delete sequences of the real stores over explicit and seeded value domains, compared strictly (equal and same type at every level)",
-   text="The TLA+ specification contributes the register / modified-time state machine; breadth over the value domain (every line terminator and control-character class, BMP/astral code points, lone surrogates in JSON, empty and large values, nested JSON, picklable objects, all byte values; encodings None/utf-8/utf-16/utf-32/latin-1; str and pathlib paths; directly and through a MountedStore) comes from an explicit alphabet plus a seeded generator. Encode/decode fidelity over an unbounded domain is not something a model decides, hence 'exploration'.",
+   text="The TLA+ specification contributes the register / modified-time state machine; breadth over the value domain (every line terminator and control-character class, BMP/astral code points, lone surrogates in JSON, empty and large values, nested JSON, picklable objects, all byte values; encodings None/utf-8/utf-16/utf-32/latin-1; str and pathlib paths; directly and through a MountedStore) comes from an explicit alphabet plus a seeded generator. MountedStores are additionally written and read back concurrently by uberjob's worker threads under the deterministic scheduler. Encode/decode fidelity over an unbounded domain is not something a model decides, hence 'exploration'.",
    note=FS_NOTE + " Value domains are finite samples."),
 })
 
@@ -85,7 +85,7 @@ PROG_NOTE = ("Trusted: TLC; the recording observer (notifications appended under
 CLAIMED.update({
  "C15": dict(engine="progress", cat="model_checking", ref="6.C15",
    technique="TLC: Progress.tla (notification protocol) model-checked; ProgressTrace.tla validates the notification sequences recording observers (alone / inside composites) received from real runs - registry histories and engine executions under the deterministic scheduler - joined with the calls that executed",
-   text="The protocol (enter first, exit once and last on every outcome, totals before running, every running followed by exactly one completed/failed, nothing running at exit when calls end normally or with an Exception, completed = total after success, per-scope run totals = executed calls, stale totals = calls examined, composite members identical) is a TLA+ specification; thousands of real runs (all failure patterns, cuts, dry runs, schedules, max_errors, retry, exception types incl. uberjob's own CallError/NodeError) are validated against it by TLC.",
+   text="The protocol (enter first, exit once and last on every outcome, totals before running, every running followed by exactly one completed/failed, nothing running at exit when calls end normally or with an Exception, completed = total after success, per-scope run totals = executed calls, stale totals = calls examined, composite members identical) is a TLA+ specification; thousands of real runs (all failure patterns, cuts, dry runs, schedules, max_errors, retry, exception types incl. uberjob's own CallError/NodeError, transformations returning a different plan) are validated against it by TLC; composites with a member that cannot be entered must exit every entered member exactly once.",
    note=PROG_NOTE),
  "C20": dict(engine="progress", cat="model_checking", ref="6.C20",
    technique="Progress.tla as a generator: TLC simulation emits legal notification sequences with ticks and render points anywhere; each is replayed into the real Console/HTML/IPython observers (model clock) over families of scope tuples, and into the HTML observer with its real update thread under the deterministic scheduler",
